@@ -22,7 +22,7 @@ class _RecQueue:
         self.owner, self.mid, self.known_at_put = owner, mid, []
 
     def put(self, item, *a, **k):
-        self.known_at_put.append(self.mid in self.owner._known_message_ids)
+        self.known_at_put.append(self.mid in self.owner._known_message_ids or any(self.mid == m for m, _t in getattr(self.owner, '_own_message_ids', ())))
 
     put_nowait = put
 
@@ -60,6 +60,7 @@ def _thread(mid, n_before, other):
     t = nt.NetworkingThread.__new__(nt.NetworkingThread)
     t._logger = _nolog()
     t._known_message_ids = collections.deque(maxlen=200)
+    t._own_message_ids = collections.deque()
     for _ in range(n_before):
         t._known_message_ids.appendleft(other)
     t._quit_send_event = threading.Event()
@@ -133,16 +134,27 @@ def own_loopback(mid: str, other: str, rx: str, n_before: int, rx_is_own: bool) 
     return orc.result()
 
 
-def own_loopback_after_traffic(maxlen: int, n_before: int, k_between: int) -> str:
+def own_loopback_after_traffic(maxlen: int, n_before: int, k_between: int, k_own: int = 0) -> str:
     """
     The id memory holds `maxlen` ids (the real one holds 200). n_before foreign ids are already known, the node sends its own
-    message, k_between NEW foreign messages arrive (fewer than the memory holds), then the own message is looped back: it is among
-    the last `maxlen` ids the node saw or sent, so it must still be ignored - whatever the fill level of the memory.
+    message and k_own further own messages (Resolves ...), k_between NEW foreign messages arrive - also MORE than the memory for
+    foreign ids holds - then the own message is looped back while its retransmissions are still pending (the clock has not
+    moved): it must still be ignored, whatever the other traffic was.
     pre: 2 <= maxlen <= 4
     pre: 0 <= n_before <= maxlen
-    pre: 0 <= k_between < maxlen
+    pre: 0 <= k_between <= 5
+    pre: 0 <= k_own <= 5
     post: __return__ == 'ok'
     """
+    from vf.hutil import pick, untraced
+    maxlen = pick(maxlen, (2, 3, 4))
+    n_before = pick(n_before, tuple(range(maxlen + 1)))
+    k_between, k_own = pick(k_between, tuple(range(6))), pick(k_own, tuple(range(6)))
+    with untraced():        # (concrete ids and counts: nothing symbolic is left, the solver enumerates the selectors)
+        return _own_loopback_after_traffic(maxlen, n_before, k_between, k_own)
+
+
+def _own_loopback_after_traffic(maxlen, n_before, k_between, k_own):
     orc = Oracle()
     saved = nt.random, nt.time, nt.message_reader
     try:
@@ -150,8 +162,12 @@ def own_loopback_after_traffic(maxlen: int, n_before: int, k_between: int) -> st
         nt.time = types.SimpleNamespace(time=lambda: 1000.0, sleep=lambda s: None)
         t = nt.NetworkingThread.__new__(nt.NetworkingThread)
         t._logger = _nolog()
-        cap = 2 if maxlen == 2 else (3 if maxlen == 3 else 4)      # concrete: deque is implemented in C
+        cap = maxlen
         t._known_message_ids = collections.deque(maxlen=cap)
+        t._own_message_ids = collections.deque()
+        saved_purge = getattr(nt, 'OWN_MESSAGE_IDS_PURGE_SIZE', None)
+        if saved_purge is not None:
+            nt.OWN_MESSAGE_IDS_PURGE_SIZE = cap       # scaled down together with the memory for foreign ids
         t._quit_send_event = threading.Event()
         t._send_queue = _RecQueue(t, 'own')
         t._wsd = _Wsd()
@@ -170,6 +186,10 @@ def own_loopback_after_traffic(maxlen: int, n_before: int, k_between: int) -> st
             i += 1
         t.add_outbound_message(_msg('own'), '239.255.255.250', 3702, nt.MULTICAST_REPEAT_PARAMS)
         j = 0
+        while j < k_own:
+            t.add_outbound_message(_msg('own%d' % j), '239.255.255.250', 3702, nt.MULTICAST_REPEAT_PARAMS)
+            j += 1
+        j = 0
         while j < k_between:
             receive('new%d' % j)
             j += 1
@@ -180,6 +200,8 @@ def own_loopback_after_traffic(maxlen: int, n_before: int, k_between: int) -> st
         return exc_result(orc, ex, 'own_loopback_after_traffic')
     finally:
         nt.random, nt.time, nt.message_reader = saved
+        if getattr(nt, 'OWN_MESSAGE_IDS_PURGE_SIZE', None) is not None:
+            nt.OWN_MESSAGE_IDS_PURGE_SIZE = 200
     return orc.result()
 
 
@@ -235,7 +257,7 @@ def _draw_pool(params):
     return inits, gaps
 
 
-def _send_loop(pset_a, ia, ga, second, pset_b, ib, gb, tb, stop, tq):
+def _send_loop(pset_a, ia, ga, second, pset_b, ib, gb, tb, stop, tq, bad_a=False):
     orc = Oracle()
     saved = nt.random, nt.time
     try:
@@ -251,18 +273,32 @@ def _send_loop(pset_a, ia, ga, second, pset_b, ib, gb, tb, stop, tq):
         t = nt.NetworkingThread.__new__(nt.NetworkingThread)
         t._logger = _nolog()
         t._known_message_ids = collections.deque(maxlen=200)
+        t._own_message_ids = collections.deque()
         t._quit_send_event = threading.Event()
         t._send_queue = queue.PriorityQueue(10000)
         sent, scheduled = [], {}
-        sock = object()
+        current = [None]
+        # the REAL _send_msg runs (serialisation, error handling); the socket records what is handed to sendto
+        sock = types.SimpleNamespace(sendto=lambda data, addr: sent.append((current[0].msg.created_message.p_msg.header_info_block.MessageID,
+                                                                           current[0].repeat, clock.now)))
         t._outbound_selector = types.SimpleNamespace(select=lambda timeout=None: [(types.SimpleNamespace(fileobj=sock), 1)])
-        t._send_msg = lambda enq, _s: sent.append((enq.msg.created_message.p_msg.header_info_block.MessageID, enq.repeat, clock.now))
+        real_send = nt.NetworkingThread._send_msg
+
+        def send_msg(enq, s):
+            current[0] = enq
+            real_send(t, enq, s)
+        t._send_msg = send_msg
 
         def enqueue(mid, params):
             before = len(t._send_queue.queue)
             if t._quit_send_event.is_set():
                 return before       # after schedule_stop the library drops new messages (documented with a warning): no claim
-            t.add_outbound_message(_msg(mid), '239.255.255.250', 3702, params)
+            m = _msg(mid)
+            if bad_a and mid == 'A':
+                def boom():
+                    raise ValueError('stub: message cannot be serialised (e.g. a scope that is not an xs:anyURI)')
+                m.serialize = boom
+            t.add_outbound_message(m, '239.255.255.250', 3702, params)
             scheduled[mid] = sorted((e.send_time, e.repeat) for e in t._send_queue.queue
                                     if e.msg.created_message.p_msg.header_info_block.MessageID == mid)
             return before
@@ -277,6 +313,8 @@ def _send_loop(pset_a, ia, ga, second, pset_b, ib, gb, tb, stop, tq):
         t._run_send()
         period = max(nt.SEND_LOOP_IDLE_SLEEP, nt.SEND_LOOP_BUSY_SLEEP)
         for mid, sched in sorted(scheduled.items()):
+            if bad_a and mid == 'A':
+                continue        # cannot be transmitted at all; the claim is about the messages handed over after it
             mine = [(rep, at) for m, rep, at in sent if m == mid]
             params = pa if mid == 'A' else pb
             orc.check(len(mine) == 1 + params.repeat and len(sched) == 1 + params.repeat, 'transmission_count!=1+repeat')
@@ -293,13 +331,14 @@ def _send_loop(pset_a, ia, ga, second, pset_b, ib, gb, tb, stop, tq):
 
 
 def send_loop_realises_schedule(pset_a: int, ia: int, ga: int, second: bool, pset_b: int, ib: int, gb: int, tb: int,
-                                stop: bool, tq: int) -> str:
+                                stop: bool, tq: int, bad_a: bool = False) -> str:
     """
     The REAL send loop (_run_send) on a virtual clock with the real queue and the real schedule computation: message A
     (unicast / multicast parameters, draws from corner / middle values), optionally a second message B enqueued while A's
     retransmissions are pending (at 0, 1/4 ... 4/4 of A's schedule), optionally a stop scheduled while datagrams are pending.
     Every datagram leaves not before its scheduled instant and at most one polling period of the loop after it; each
-    message 1 + repeat times, in order.
+    message 1 + repeat times, in order. bad_a: message A cannot be serialised (the application handed over an invalid uri) -
+    message B must still be transmitted completely.
     pre: 0 <= pset_a < 2
     pre: 0 <= ia < 3
     pre: 0 <= ga < 3
@@ -317,4 +356,4 @@ def send_loop_realises_schedule(pset_a: int, ia: int, ga: int, second: bool, pse
     stop = bool(stop)
     tq = pick(tq, r5) if stop else 0
     with untraced():
-        return _send_loop(pset_a, ia, ga, second, pset_b, ib, gb, tb, stop, tq)
+        return _send_loop(pset_a, ia, ga, second, pset_b, ib, gb, tb, stop, tq, bool(bad_a))
